@@ -18,7 +18,7 @@ def members(schema, ty):
 
 
 def observe(schema, m, ty, R=None, C=None):
-    o = {"val": gen.fresh(schema, ty), "wire": [], "raises": {"_": False}, "dictkeys": [], "err": "", "refval": None, "len": -1, "dump": [], "delim": [], "reread": [], "reread_res": "skipped"}
+    o = {"val": gen.fresh(schema, ty), "wire": [], "raises": {"_": False}, "dictkeys": [], "err": "", "refval": None, "len": -1, "dump": [], "delim": [], "reread": [], "reread_res": "skipped", "isset": {"_": False}}
     try:
         o["val"] = dyn.obs_bp(schema, m, ty)
         o["len"] = len(m)                   # (before bytes(): a size computed / cached earlier must still be right)
@@ -49,6 +49,9 @@ def observe(schema, m, ty, R=None, C=None):
             except AttributeError:
                 o["raises"][f["name"]] = True
         o["dictkeys"] = [k for k in m.to_dict(casing=betterproto.Casing.SNAKE).keys()]
+        # Message.is_set of the proto3-optional fields (read last: after every other observer has run)
+        o["isset"] = {f["name"]: bool(m.is_set(dyn.py(f))) for f in schema["types"][ty] if f["card"] == "optional"}
+        o["isset"]["_"] = False
     except Exception as ex:
         o["err"] = type(ex).__name__ + ":" + str(ex)[:70]
     if o["refval"] is None:
